@@ -1302,7 +1302,7 @@ def run_syntax(ctx, h):
 def main(ctx):
     regen_ok = ctx.regen()
     lean_ok, errs = ctx.lake_build(["GojaModel.C20.Props", "GojaModel.C20.Tie", "model_c20"])
-    ctx.audit("GojaModel.C20.Props", expect_min=32)
+    ctx.audit("GojaModel.C20.Props", expect_min=33)
     ctx.audit("GojaModel.C20.Tie", expect_min=5)
     if ctx.tier == "thorough":
         ctx.leanchecker("GojaModel.C20.Props")
